@@ -100,6 +100,7 @@ type machine struct {
 
 	steps       int64
 	stepLimit   int64
+	symBranches int
 	stepLabel   string
 	fnCounts    map[*ssa.Function]*int64
 	clock       *Term
@@ -217,6 +218,13 @@ func (m *machine) branch(c *Term) bool {
 	}
 	if m.replay != nil {
 		panic(engineError{"symbolic branch condition during concrete replay: " + c.String()})
+	}
+	// unwinding bound for loops whose trip count is symbolic: a path may take at most maxSymBranches
+	// solver-decided branches; beyond that the path is reported as an unwinding failure, like the
+	// instruction budget
+	m.symBranches++
+	if m.symBranches > maxSymBranches {
+		m.stepLimitHit()
 	}
 	if d, ok := m.nextPrefix('b'); ok {
 		m.trace = append(m.trace, Decision{K: 'b', C: d.C, F: d.F})
@@ -790,6 +798,8 @@ func (m *machine) fnCount(fn *ssa.Function) *int64 {
 	m.fnCounts[fn] = c
 	return c
 }
+
+const maxSymBranches = 3000
 
 func (m *machine) stepLimitHit() {
 	if m.stepLabel != "" {
